@@ -17,6 +17,12 @@ GETITEM = "ceos_alos2.array:Array.__getitem__"
 WRAPPER_GETITEM = "ceos_alos2.xarray:LazilyIndexedWrapper.__getitem__"
 
 
+def open_once(chk, repo):
+    """C11-I10: one metadata pass per open (vlib/openmodel.py)"""
+    from .open_rules import open_rules
+    open_rules(chk, repo, "C11-I10", ('parse', 'hit', 'write-fault'), "open_image opens the image and runs the metadata pass once per open (never on a cache hit, never twice - not even when the cache write fails)")
+
+
 def run(chk, repo):
     g = CallGraph(repo)
     chk.explanation = (
@@ -32,6 +38,7 @@ def run(chk, repo):
     chk.rule("C11-I4", "every read on the open/load paths carries a size argument", 1)
     chk.rule("C11-I5", "read_metadata: descriptor read, then one read(chunksize*record_size) per chunk in order, no seek", 3)
     chk.rule("C11-I6", "nothing reachable from a pixel load performs other I/O", 1)
+    chk.attempt(open_once, chk, repo)
     chk.attempt(load_requests, chk, repo)
     chk.attempt(i123, chk, repo, g, covered_by="load_requests", rules=("C11-I2", "C11-I3"))
     chk.attempt(i4, chk, repo, g)
